@@ -19,3 +19,41 @@ pub enum Cmd4 {
 pub fn cmd4_names() -> Vec<String> {
     ["ab", "aé", "b", "ébb"].iter().map(|s| s.to_string()).collect()
 }
+
+// ---- command sets for the fault enumeration (names typable with {a, h, space, -})
+
+/// plain enum: a, aa (with an argument and an option, so help has several rows), ha
+#[derive(Debug, Command)]
+pub enum PlainA<'a> {
+    /// First command
+    A,
+    /// Second command.
+    ///
+    /// With a longer description
+    Aa {
+        /// Some text
+        text: Option<&'a str>,
+        /// A level
+        #[arg(short = 'a', long)]
+        level: Option<u8>,
+    },
+}
+
+#[derive(Debug, Command)]
+pub enum PlainB {
+    /// Other group command
+    Ha,
+}
+
+#[derive(Debug, embedded_cli::CommandGroup)]
+pub enum Grp<'a> {
+    First(PlainA<'a>),
+    Second(PlainB),
+}
+
+pub fn plain_a_names() -> Vec<String> {
+    ["a", "aa"].iter().map(|s| s.to_string()).collect()
+}
+pub fn grp_names() -> Vec<String> {
+    ["a", "aa", "ha"].iter().map(|s| s.to_string()).collect()
+}
